@@ -159,6 +159,7 @@ func runCheck(o *checkOpts) *checkResult {
 		opt.timeoutS = 60
 		opt.confirm = true
 	}
+	e.u.freezePrelude()
 	dischargeAll(res.obls, opt, 8)
 	for _, ob := range res.obls {
 		res.solverTime += ob.Time
